@@ -4,7 +4,8 @@ DESIGN.md section 4, C08.
 Monitors (every one evaluated next to the real code on every generated case):
   parse      falcon.uri.parse_query_string(s, keep_blank, csv) == reference reading (vlib/models/uri.py
              ref_parse_qs), never raises, result is a dict of str -> str | list[str]
-  request    the same through real WSGI / ASGI requests (vlib.drivers): req.query_string, req.params,
+  request    the same through real WSGI requests, ASGI HTTP requests and ASGI WebSocket handshake requests
+             (vlib.drivers wsgi/asgi/ws; one app per interface, options toggled between requests): req.params,
              req.has_param, and a program of typed getter calls compared op by op with the reference
              conversion of the last occurrence (required/default/store/min/max/blank_as_true/transform),
              documented 400-class error or nothing; params unchanged by getters and not shared between
@@ -24,6 +25,7 @@ import falcon.asgi
 from falcon import uri
 
 from vlib.drivers import asgi as A
+from vlib.drivers import ws as WS
 from vlib.drivers import wsgi as W
 from vlib.models import c08_query as M
 from vlib.models import uri as MU
@@ -36,6 +38,8 @@ MODES = {'quick': ['pure'], 'thorough': ['pure', 'asbuilt', 'asan']}
 SYMS = ['&', '=', ',', '+', '%', '2', 'C', 'c', 'g', 'a', '\x00', 'é']
 COMBOS = [(False, False), (False, True), (True, False), (True, True)]      # (keep_blank, csv)
 POISON = '~poison~'
+FLAVORS = ('wsgi', 'asgi', 'ws')
+DIRECT = ('direct_wsgi', 'direct_asgi')
 
 # Proposed known_findings.json keys (genuine defects met on the unchanged tree, see the final report).
 K_EMPTY_LIST = 'csv-all-blank-value-empty-list-indexerror'
@@ -224,6 +228,16 @@ class ProbeAsync(Probe):
         run_program(req, self)
         resp.media = {'ok': True}
 
+    async def on_websocket(self, req, ws):
+        # the handshake request of a WebSocket connection is an ASGI request with a query string too
+        run_program(req, self)
+        await ws.accept()
+        await ws.close()
+
+
+class _NoResponse:
+    status, body = None, b''
+
 
 class Harness:
     def __init__(self):
@@ -231,8 +245,12 @@ class Harness:
         self.app = {'wsgi': falcon.App(), 'asgi': falcon.asgi.App()}
         for f in ('wsgi', 'asgi'):
             self.app[f].add_route('/q', self.probe[f])
+        # 'ws': the same ASGI app and resource, reached through a WebSocket connection scope
+        self.probe['ws'], self.app['ws'] = self.probe['asgi'], self.app['asgi']
 
     def run(self, flavor, query, kb, csv, program, has_names, drop_key=False):
+        if flavor.startswith('direct_'):
+            return self.run_direct(flavor, query, kb, csv, program, has_names)
         app, probe = self.app[flavor], self.probe[flavor]
         app.req_options.keep_blank_qs_values = kb
         app.req_options.auto_parse_qs_csv = csv
@@ -243,10 +261,37 @@ class Harness:
                 del env['QUERY_STRING']
             res = W.run_wsgi(app, env)
             failed = res.exc
+        elif flavor == 'ws':
+            sess = WS.WsSession([]).run(app, WS.make_ws_scope('/q', query))
+            res = _NoResponse()
+            failed = sess.exc if sess.outcome == 'raised' else (None if sess.outcome == 'done' else sess.outcome)
         else:
             res = A.run_asgi_http(app, A.make_scope('GET', '/q', query))
             failed = res.exc if res.outcome == 'raised' else (None if res.outcome == 'done' else res.outcome)
         return res, probe.out, failed
+
+
+    def run_direct(self, flavor, query, kb, csv, program, has_names):
+        """Request objects built through the public constructors with an explicit RequestOptions."""
+        opts = falcon.RequestOptions()
+        opts.keep_blank_qs_values = kb
+        opts.auto_parse_qs_csv = csv
+        probe = self.probe['wsgi']
+        probe.program, probe.has_names, probe.out = program, has_names, None
+        failed = None
+        try:
+            if flavor == 'direct_wsgi':
+                req = falcon.Request(W.make_environ('GET', '/q', query), options=opts)
+            else:
+                async def receive():
+                    return {'type': 'http.disconnect'}
+                req = falcon.asgi.Request(A.make_scope('GET', '/q', query), receive, options=opts)
+            run_program(req, probe)
+        except falcon.HTTPBadRequest:
+            pass                        # a propagating op: recorded by run_program
+        except Exception as ex:  # noqa
+            failed = ex
+        return _NoResponse(), probe.out, failed
 
 
 _H = []
@@ -302,7 +347,7 @@ def check_request(rec, flavor, query, kb, csv, program, extra_has=(), drop_key=F
             qs = None
     else:
         qs = query
-    wire = query.encode('utf-8') if (flavor == 'asgi' and isinstance(query, str)) else query
+    wire = query.encode('utf-8') if (not flavor.endswith('wsgi') and isinstance(query, str)) else query
     wit = {'case': 'request', 'flavor': flavor, 'kb': kb, 'csv': csv, 'program': program,
            'drop_key': drop_key, 'mode': rec.mode}
     if isinstance(query, bytes):
@@ -377,9 +422,9 @@ def check_request(rec, flavor, query, kb, csv, program, extra_has=(), drop_key=F
     rec.count('mon.response')
     if expect_400 is not None:
         rec.count('cls.error_propagated_' + flavor)
-        if res.status != 400:
+        if flavor in ('wsgi', 'asgi') and res.status != 400:
             rec.count('obs.propagated_error_status_not_400')    # observation only: rendering errors is C04's subject
-    elif out['done'] and res.status != 200:
+    elif out['done'] and flavor in ('wsgi', 'asgi') and res.status != 200:
         rec.count('obs.status_not_200_after_clean_responder')
 
 
@@ -553,7 +598,7 @@ def run_table(rec):
             continue
         q, kb, csv = table_query(kind, text, pres, k)
         prog = table_program(kind, text, k)
-        for flavor in ('wsgi', 'asgi'):
+        for flavor in FLAVORS:
             if flavor == 'wsgi' and any(ord(c) > 255 for c in q):
                 continue
             check_request(rec, flavor, q, kb, csv, prog)
@@ -753,9 +798,11 @@ def generic_program(ref, k):
     return prog
 
 
-def request_both(rec, qs, kb, csv, prog, extra_has=()):
-    for flavor in ('wsgi', 'asgi'):
-        if flavor == 'wsgi' and any(ord(c) > 255 for c in qs):
+def request_both(rec, qs, kb, csv, prog, extra_has=(), direct=False):
+    """Every way a request object comes into being: WSGI, ASGI HTTP, ASGI WebSocket handshake
+    (+ the public constructors when direct=True)."""
+    for flavor in (FLAVORS + DIRECT if direct else FLAVORS):
+        if flavor.endswith('wsgi') and any(ord(c) > 255 for c in qs):
             rec.count('skip.wsgi_non_latin1')
             continue
         check_request(rec, flavor, qs, kb, csv, prog, extra_has)
@@ -848,17 +895,18 @@ def run(rec):
         check_parse_defaults(rec, q)
         rec.case(q)
         for kb, csv in COMBOS:
-            request_both(rec, q, kb, csv, generic_program(MU.ref_parse_qs(q, kb, csv), j))
+            request_both(rec, q, kb, csv, generic_program(MU.ref_parse_qs(q, kb, csv), j), direct=True)
         rec.count('cls.fixed_strings')
     if rec.shard == 0:
         for j, raw in enumerate(NON_UTF8):
-            check_request(rec, 'asgi', raw, bool(j % 2), bool(j % 3 == 0), generic_program({}, j))
-            rec.case(('req', 'asgi-bytes', raw))
+            for flavor in ('asgi', 'ws'):
+                check_request(rec, flavor, raw, bool(j % 2), bool(j % 3 == 0), generic_program({}, j))
+                rec.case(('req', flavor + '-bytes', raw))
         for kb, csv in COMBOS:
             check_request(rec, 'wsgi', '', kb, csv, generic_program({}, 1), drop_key=True)
             rec.count('cls.wsgi_no_query_key')
             rec.case(('req', 'wsgi-nokey', kb, csv))
-            for flavor in ('wsgi', 'asgi'):
+            for flavor in FLAVORS:
                 check_request(rec, flavor, '', kb, csv, generic_program({}, 2))
                 rec.count('cls.empty_query')
         for j, q in enumerate(['a=,', 'a=,,&b=1', 'b=1&a=,', '%61=,', 'a=,&a=,,', 'b=,1&a=,']):
@@ -907,7 +955,7 @@ def run(rec):
             q, kind, names = random_structured(rng)
             kb, csv = rng.choice(COMBOS)
             check_parse(rec, q, COMBOS.index((kb, csv)))
-            request_both(rec, q, kb, csv, random_program(rng, kind, names), extra_has=names)
+            request_both(rec, q, kb, csv, random_program(rng, kind, names), extra_has=names, direct=True)
             rec.count('rand.structured')
         for _ in range(20):
             d = random_dict(rng)
@@ -916,7 +964,7 @@ def run(rec):
             rec.count('rand.roundtrip')
         if rng.random() < 0.3:
             raw = bytes(rng.choice([0x61, 0x3d, 0x26, 0x25, 0x2c, 0xff, 0xc3, 0xa9, 0x80, 0xe2, 0x32]) for _ in range(rng.randint(1, 12)))
-            check_request(rec, 'asgi', raw, rng.random() < 0.5, rng.random() < 0.5, generic_program({}, n))
+            check_request(rec, rng.choice(['asgi', 'ws']), raw, rng.random() < 0.5, rng.random() < 0.5, generic_program({}, n))
             rec.case(('req', 'asgi-bytes', raw))
 
     # ---- floors
@@ -924,6 +972,9 @@ def run(rec):
     rec.floor('mon.parse_defaults', 1000)
     rec.floor('mon.request.wsgi', 1500)
     rec.floor('mon.request.asgi', 1500)
+    rec.floor('mon.request.ws', 1500)
+    rec.floor('mon.request.direct_wsgi', 300)
+    rec.floor('mon.request.direct_asgi', 300)
     rec.floor('mon.has_param', 3000)
     rec.floor('mon.response', 3000)
     rec.floor('mon.roundtrip.render', 2000)
@@ -948,7 +999,7 @@ def run(rec):
               'blank_element_dropped', 'repeat_scalar_to_list', 'repeat_append', 'csv_repeat', 'repeat_via_decoded_name',
               'nul', 'non_ascii'):
         rec.floor('cls.' + c, 10)
-    for c in ('error_propagated_wsgi', 'error_propagated_asgi', 'rt_list_cdl', 'rt_list_repeat', 'rt_bool', 'rt_empty_list'):
+    for c in ('error_propagated_wsgi', 'error_propagated_asgi', 'error_propagated_ws', 'rt_list_cdl', 'rt_list_repeat', 'rt_bool', 'rt_empty_list'):
         rec.floor('cls.' + c, 10)
     for c in ('asgi_non_utf8', 'wsgi_no_query_key', 'empty_query', 'deep_json', 'options_toggled', 'csv_all_blank', 'fixed_strings'):
         rec.floor('cls.' + c, 2)
